@@ -1,7 +1,8 @@
 (** C14 — Parser operations transform the remainder exactly like the string functions.
     Statements only.
 
-    NOT YET PROVED: parse_* operations inside the Parser record (their frame is proved in C12). *)
+    parse_* operations are included: [free_fn] of [OParseInt]/[OParseBool] is the prefix parser of
+    Model/ParseInt.v (proved equal to std's grammar in C12). *)
 From KV Require Import Base.Prelude Model.Search Spec.Search Spec.Split Model.Parser Proofs.ParserProofs.
 
 (** strip / trim / trim-matches / find-skip / split-once: the operation leaves the remainder
